@@ -7,7 +7,7 @@ from vlib.refops import f32
 
 PID = "C21"
 RULE = ("dlgen programs over number / unsigned / float / symbol attributes (negation, aggregates, functors, recursion) whose EDB relations are "
-        "all `.input`; each is generated to C++ with `souffle -g`, compiled with -D__EMBEDDED_SOUFFLE__ and linked with a generic driver "
+        "all `.input` and whose relations carry generated representation qualifiers (default / btree / brie); each is generated to C++ with `souffle -g`, compiled with -D__EMBEDDED_SOUFFLE__ and linked with a generic driver "
         "that executes a generated script of API calls: insert(tuple) into every input relation, run(), iterate / size() / "
         "contains(member and non-member probes) on every output and input relation, purgeInputRelations / purgeOutputRelations / "
         "purgeInternalRelations / Relation::purge, size after purge, re-insert (the same or a second fact set) and run() again, "
@@ -48,6 +48,10 @@ def gen(ch):
         rel = P.rels[n]
         if rel.kind == "edb":
             rel.from_file = True
+        # data-structure qualifiers: the API wraps every representation behind the same Relation interface
+        q = ch.weighted([(5, ""), (2, "btree"), (3, "brie")])
+        if q and len(rel.types) > 0 and not rel.quals:
+            rel.quals.append(q)
     text, _ = dlgen.to_souffle(P)
     types = {n: [dlgen.tname(t) for t in P.rels[n].types] for n in P.order}
     outs = [n for n in P.order if P.rels[n].output]
